@@ -60,8 +60,13 @@ def r1_bounds(ctx):
                 ctx.ob("R1", f, f"statistics key {k!r}", k not in STRICT,
                        "not a bound check" if k not in STRICT else
                        f"a strict / exact check ({k}) is inferred from the data: its own extreme values fail it")
-    if n_bound < 4:
-        raise AnalysisError("bound statistics not found")
+    for d in dicts:
+        keys = _dict_keys(d)
+        if set(keys) & (set(INCLUSIVE) | STRICT):
+            for k in INCLUSIVE:
+                if k not in keys:
+                    ctx.ob("R1", f, f"bound statistics contain {k}", False,
+                           f"a bound statistics dict lacks the inclusive key {k!r} (keys: {sorted(keys)})")
     # early exit for all-null arrays
     ok = any(isinstance(s, ast.If) and "isna().all()" in txt(s.test) and isinstance(s.body[0], ast.Return) for s in f.node.body)
     ctx.ob("R1", f, "all-null arrays get no value checks", ok, "returns None when everything is null" if ok else "min()/max() of an all-null array would become NaN bounds")
